@@ -130,3 +130,281 @@ def build(ck):
         else:
             S.oblige('exc', False, tag=f'undeclared-{out.value.name}')
     ck.explore(f'{AX}.ReshapeOperator._normalize_shape', normalize_shape, T)
+
+
+# ====================================================================== second part
+def legal_target(sa, n, size):
+    """numpy's rule for x.reshape(shape): no size < -1, at most one -1, sizes agree"""
+    i, j = fresh_int('i'), fresh_int('j')
+    too_small = z3.Exists([i], z3.And(0 <= i, i < n, sa[i] < -1))
+    has_m1 = z3.Exists([i], z3.And(0 <= i, i < n, sa[i] == -1))
+    two_m1 = z3.Exists([i, j], z3.And(0 <= i, i < j, j < n, sa[i] == -1, sa[j] == -1))
+    total = ST.Pprod(sa, 0, n)
+    others = -total
+    divisible = size == others * z3.ToInt(z3.ToReal(size) / z3.ToReal(others))
+    legal = z3.And(z3.Not(too_small), z3.Not(two_m1),
+                   z3.If(has_m1, z3.And(others != 0, divisible), total == size))
+    return dict(too_small=too_small, has_m1=has_m1, two_m1=two_m1, total=total, others=others, divisible=divisible,
+                legal=legal)
+
+
+def normalize_shape_contract(interp, fi, args, kwargs):
+    """callee contract of ReshapeOperator._normalize_shape, as proved in scenario `normalize_shape` (plus the ghost
+    product post proved in `normalize_shape_prod`)"""
+    shape, leaf_shape = [B.as_seq(interp, a) for a in args[-2:]]
+    run = interp.run
+    sa, ax = shape.to_array()
+    la, ax2 = leaf_shape.to_array()
+    for a in ax + ax2:
+        run.assume(a)
+    n = to_z3(shape.length)
+    size = ST.Pprod(la, 0, to_z3(leaf_shape.length))
+    L = legal_target(sa, n, size)
+    which = run.decide(3)
+    if which == 0:
+        run.assume(z3.Or(L['too_small'], L['two_m1'], z3.And(L['has_m1'], L['others'] != 0, z3.Not(L['divisible']))))
+        interp.raise_('ValueError')
+    if which == 1:
+        run.assume(z3.And(L['has_m1'], z3.Not(L['two_m1']), L['others'] == 0))
+        interp.raise_('ZeroDivisionError')
+    run.assume(z3.And(z3.Not(L['too_small']), z3.Not(L['two_m1']),
+                      z3.Implies(L['has_m1'], z3.And(L['others'] != 0, L['divisible']))))
+    r = SSeq.fresh('normalized', kind='tuple', length=shape.length)
+    q = z3.ToInt(z3.ToReal(size) / z3.ToReal(L['others']))
+    k = fresh_int('k')
+    run.assume(z3.ForAll([k], z3.Implies(z3.And(0 <= k, k < n), r.arr[k] == z3.If(sa[k] == -1, q, sa[k])),
+                         patterns=[r.arr[k]]))
+    run.assume(ST.Pprod(r.arr, 0, n) == z3.If(L['has_m1'], L['others'] * q, L['total']))
+    return r
+
+
+def build2(ck, T):
+    P = ck.P
+
+    # ------------------------------------------------------------------ ghost product post of _normalize_shape
+    def normalize_shape_prod(S):
+        S.oracle = {'name': 'reshape'}
+        shape = S.seq('shape')
+        leaf_shape = S.seq('leaf_shape')
+        S.assume(leaf_shape.forall(lambda k, e: e >= 0))
+        n = to_z3(shape.length)
+        size = ST.Pprod(leaf_shape.arr, 0, to_z3(leaf_shape.length))
+        L = legal_target(shape.arr, n, size)
+        out = S.call(S.func(f'{AX}.ReshapeOperator._normalize_shape'), [shape, leaf_shape])
+        if out.normal:
+            rseq = B.as_seq(S.I, out.value)
+            pr = ST.prod_term(S.run, rseq)
+            q = z3.ToInt(z3.ToReal(size) / z3.ToReal(L['others']))
+            S.oblige('post', pr == z3.If(L['has_m1'], L['others'] * q, L['total']), tag='product-of-normalized-shape')
+    ck.explore(f'{AX}.ReshapeOperator._normalize_shape', normalize_shape_prod, T, label='ghost-product')
+
+    # ------------------------------------------------------------------ ReshapeOperator.__init__ / _check_shape
+    contracts = {f'{AX}.ReshapeOperator._normalize_shape': normalize_shape_contract}
+
+    def reshape_init(S):
+        S.oracle = {'name': 'reshape'}
+        shape = S.seq('shape')
+        leaves = leaf_seq(S, 'leaves')
+        struct = ST.StructV(leaves)
+        S.assume(to_z3(leaves.length) >= 1)
+        S.assume(leaves.forall(lambda k, e: e.wf()))
+        n = to_z3(shape.length)
+        o = Obj(P.cls('ReshapeOperator'))
+        out = S.call(S.func(f'{AX}.ReshapeOperator.__init__'), [o, shape], {'in_structure': struct})
+        all_legal = leaves.forall(lambda k, e: legal_target(shape.arr, n, ST.f_size(e.term))['legal'])
+        if out.raised('ValueError') or out.raised('ZeroDivisionError'):
+            S.oblige('exc', z_not(all_legal), tag='refuses-only-targets-illegal-for-some-leaf')
+        elif out.normal:
+            S.oblige('exc', all_legal, tag='accepts-only-targets-legal-for-every-leaf')
+            S.oblige('post', z_and(o.fields.get('shape') is shape, o.fields.get('_in_structure') is struct), tag='fields')
+        else:
+            S.oblige('exc', False, tag=f'undeclared-{out.value.name}')
+    ck.explore(f'{AX}.ReshapeOperator.__init__', reshape_init, T, contracts=contracts)
+
+    # ------------------------------------------------------------------ ReshapeOperator.mv (leaf function)
+    def reshape_mv(S):
+        S.oracle = {'name': 'reshape'}
+        shape = S.seq('shape')
+        x = ST.LeafV(z3.Const('x', ST.Leaf))
+        n = to_z3(shape.length)
+        L = legal_target(shape.arr, n, ST.f_size(x.term))
+        S.assume(z3.And(x.wf(), L['legal']))           # class invariant established by the constructor
+        o = S.new('ReshapeOperator', shape=shape, _in_structure=x)
+        out = S.call(S.I.getattr(o, 'mv'), [x])
+        if not out.normal:
+            S.oblige('exc', False, tag=f'no-exception-for-accepted-arguments-{out.value.name}')
+            return
+        r = out.value
+        k = fresh_int('k')
+        q = z3.ToInt(z3.ToReal(ST.f_size(x.term)) / z3.ToReal(L['others']))
+        S.oblige('post', ST.f_ndim(r.term) == n, tag='rank')
+        S.oblige('post', z3.ForAll([k], z3.Implies(z3.And(0 <= k, k < n), ST.f_shape(r.term)[k] ==
+                                                    z3.If(shape.arr[k] == -1, q, shape.arr[k]))), tag='shape')
+        S.oblige('post', z3.And(ST.f_data(r.term) == ST.f_data(x.term), ST.f_dtype(r.term) == ST.f_dtype(x.term)),
+                 tag='row-major-order-and-dtype-unchanged')
+    ck.explore(f'{AX}.ReshapeOperator.mv', reshape_mv, T)
+
+    # ------------------------------------------------------------------ ReshapeTransposeOperator.mv
+    def reshape_T_mv(S):
+        S.oracle = {'name': 'reshape'}
+        which = S.choose(2)
+        xin = ST.LeafV(z3.Const('xin', ST.Leaf))      # the operand's input leaf structure
+        y = ST.LeafV(z3.Const('y', ST.Leaf))          # what the transpose is applied to: an output of the operand
+        S.assume(z3.And(xin.wf(), y.wf(), ST.f_size(y.term) == ST.f_size(xin.term)))
+        if which == 0:
+            shape = S.seq('shape')
+            inner = S.new('ReshapeOperator', shape=shape, _in_structure=xin)
+        else:
+            inner = S.new('RavelOperator', first_axis=S.int('first_axis'), last_axis=S.int('last_axis'), _in_structure=xin)
+        o = S.new('ReshapeTransposeOperator', operator=inner)
+        out = S.call(S.I.getattr(o, 'mv'), [y])
+        if not out.normal:
+            S.oblige('exc', False, tag=f'no-exception-{out.value.name}')
+            return
+        r = out.value
+        S.oblige('post', z_and(r.shape.eq(xin.shape), ST.f_data(r.term) == ST.f_data(y.term)),
+                 tag='reshapes-back-to-the-operand-input-shape-keeping-order')
+    ck.explore(f'{AX}.ReshapeTransposeOperator.mv', reshape_T_mv, T)
+
+    # ------------------------------------------------------------------ AbstractRavelOrReshapeOperator.transpose / reduce
+    def ror_transpose(S):
+        xin = ST.LeafV(z3.Const('xin', ST.Leaf))
+        inner = S.new('ReshapeOperator', shape=S.seq('shape'), _in_structure=xin)
+        out = S.call(S.I.getattr(inner, 'transpose'), [])
+        ok = out.normal and isinstance(out.value, Obj) and out.value.cls.name == 'ReshapeTransposeOperator' \
+            and out.value.fields.get('operator') is inner
+        S.oblige('post', bool(ok), tag='transpose-wraps-self')
+        if ok:
+            tt = S.call(S.I.getattr(out.value, 'transpose'), [])
+            S.oblige('post', tt.normal and tt.value is inner, tag='transpose-of-transpose-is-self')
+            ins = S.call(S.I.getattr(out.value, 'out_structure'), [])
+            S.oblige('post', ins.normal and ins.value is xin, tag='transpose-output-structure-is-operand-input')
+    ck.explore(f'{AX}.AbstractRavelOrReshapeOperator.transpose', ror_transpose, T)
+
+
+def build3(ck, T):
+    P = ck.P
+
+    # ------------------------------------------------------------------ MoveAxisOperator.__init__
+    def moveaxis_init(S):
+        S.oracle = {'name': 'moveaxis'}
+        x = ST.LeafV(z3.Const('xin', ST.Leaf))
+        args = []
+        expect = []
+        for nm in ('source', 'destination'):
+            kind = S.choose(3)
+            if kind == 0:
+                v = S.int(nm)
+                args.append(v)
+                expect.append(SSeq.lift((v,)))
+            elif kind == 1:
+                v = S.seq(nm, kind='tuple')
+                args.append(v)
+                expect.append(v)
+            else:
+                v = S.seq(nm, kind='list')
+                args.append(B.PyList(None, seq=v))
+                expect.append(v)
+        o = Obj(P.cls('MoveAxisOperator'))
+        out = S.call(S.func(f'{AX}.MoveAxisOperator.__init__'), [o] + args, {'in_structure': x})
+        if not out.normal:
+            S.oblige('exc', False, tag=f'no-exception-{out.value.name}')
+            return
+        for nm, e in zip(('source', 'destination'), expect):
+            got = o.fields.get(nm)
+            S.oblige('post', z_and(B._isinstance(S.I, got, B.BUILTINS['tuple']), B.as_seq(S.I, got).eq(
+                SSeq(e.length, e.get, 'tuple'))), tag=f'{nm}-stored-as-tuple')
+        S.oblige('post', o.fields.get('_in_structure') is x, tag='structure-stored')
+    ck.explore(f'{AX}.MoveAxisOperator.__init__', moveaxis_init, T)
+
+    # ------------------------------------------------------------------ MoveAxisOperator.mv / transpose / inverse
+    def moveaxis_mv(S):
+        S.oracle = {'name': 'moveaxis'}
+        x = ST.LeafV(z3.Const('x', ST.Leaf))
+        src, dst = S.seq('source'), S.seq('destination')
+        o = S.new('MoveAxisOperator', source=src, destination=dst, _in_structure=x)
+        out = S.call(S.I.getattr(o, 'mv'), [x])
+        if not out.normal:
+            S.oblige('exc', False, tag=f'no-exception-{out.value.name}')
+            return
+        r = out.value
+        ok = isinstance(r, ST.LeafV) and hasattr(r, 'moved_from')
+        S.oblige('post', bool(ok), tag='result-is-jnp.moveaxis')
+        if ok:
+            a, s2, d2 = r.moved_from
+            S.oblige('post', z_and(a is x, s2.eq(src), d2.eq(dst)), tag='moveaxis-called-with-(leaf,source,destination)')
+    ck.explore(f'{AX}.MoveAxisOperator.mv', moveaxis_mv, T)
+
+    def moveaxis_transpose(S):
+        S.oracle = {'name': 'moveaxis'}
+        x = ST.LeafV(z3.Const('x', ST.Leaf))
+        src, dst = S.seq('source'), S.seq('destination')
+        o = S.new('MoveAxisOperator', source=src, destination=dst, _in_structure=x)
+        which = S.choose(2)
+        out = S.call(S.I.getattr(o, 'transpose' if which == 0 else 'inverse'), [])
+        nm = 'transpose' if which == 0 else 'inverse'
+        if not out.normal:
+            S.oblige('exc', False, tag=f'{nm}-no-exception-{out.value.name}')
+            return
+        t = out.value
+        ok = isinstance(t, Obj) and t.cls.name == 'MoveAxisOperator'
+        S.oblige('post', bool(ok), tag=f'{nm}-is-a-move-axis')
+        if ok:
+            S.oblige('post', z_and(B.as_seq(S.I, t.fields['source']).eq(dst), B.as_seq(S.I, t.fields['destination']).eq(src)),
+                     tag=f'{nm}-swaps-source-and-destination')
+            ins = t.fields['_in_structure']
+            good = isinstance(ins, ST.LeafV) and hasattr(ins, 'moved_from') and ins.moved_from[0] is x
+            S.oblige('post', bool(good), tag=f'{nm}-input-structure-is-own-output-structure')
+    ck.explore(f'{AX}.MoveAxisOperator.transpose', moveaxis_transpose, T)
+
+    # ------------------------------------------------------------------ MoveAxisInverseRule
+    def moveaxis_rule(S):
+        S.oracle = {'name': 'moveaxis'}
+        x = ST.LeafV(z3.Const('x', ST.Leaf))
+        y = ST.LeafV(z3.Const('y', ST.Leaf))
+        ls, ld, rs, rd = S.seq('lsrc'), S.seq('ldst'), S.seq('rsrc'), S.seq('rdst')
+        left = S.new('MoveAxisOperator', source=ls, destination=ld, _in_structure=y)
+        right = S.new('MoveAxisOperator', source=rs, destination=rd, _in_structure=x)
+        rule = Obj(P.cls('MoveAxisInverseRule'))
+        chk = S.call(S.I.getattr(rule, 'check'), [left, right])
+        S.oblige('post', chk.normal, tag='check-accepts-two-move-axes')
+        out = S.call(S.I.getattr(rule, 'apply'), [left, right])
+        inverse_pair = z_and(ls.eq(rd), ld.eq(rs))
+        if out.normal:
+            r = out.value
+            S.oblige('post', isinstance(r, B.PyList) and r.seq is None and len(r.items) == 0, tag='rewrites-to-empty-product')
+            S.oblige('post', inverse_pair, tag='fires-only-for-swapped-source-destination (LA6)')
+        elif out.raised('NoReduction'):
+            S.oblige('post', z_not(inverse_pair), tag='declines-only-non-inverse-pairs')
+        else:
+            S.oblige('exc', False, tag=f'undeclared-{out.value.name}')
+    ck.explore(f'{AX}.MoveAxisInverseRule.apply', moveaxis_rule, T)
+
+    # ------------------------------------------------------------------ ReshapeInverseRule
+    def reshape_rule(S):
+        S.oracle = {'name': 'reshape'}
+        xin = ST.LeafV(z3.Const('xin', ST.Leaf))
+        mk = lambda nm: S.new('ReshapeOperator', shape=S.seq(nm), _in_structure=xin)
+        a, b = mk('shape_a'), mk('shape_b')
+        ta, tb = S.new('ReshapeTransposeOperator', operator=a), S.new('ReshapeTransposeOperator', operator=b)
+        cases = [(a, ta, True), (ta, a, True), (a, tb, False), (tb, a, False), (a, b, False), (ta, tb, False), (a, a, False)]
+        left, right, should = cases[S.choose(len(cases))]
+        rule = Obj(P.cls('ReshapeInverseRule'))
+        chk = S.call(S.I.getattr(rule, 'check'), [left, right])
+        S.oblige('post', chk.normal, tag='check-accepts-reshape-like-pairs')
+        out = S.call(S.I.getattr(rule, 'apply'), [left, right])
+        if should:
+            S.oblige('post', out.normal and isinstance(out.value, B.PyList) and out.value.seq is None
+                     and len(out.value.items) == 0, tag='operator-next-to-its-own-transpose-cancels (LA6)')
+        else:
+            S.oblige('post', out.raised('NoReduction'), tag='other-pairs-declined')
+    ck.explore(f'{AX}.ReshapeInverseRule.apply', reshape_rule, T)
+
+
+_build1 = build
+
+
+def build(ck):          # noqa: F811
+    _build1(ck)
+    build2(ck, theory())
+    build3(ck, theory())
